@@ -11,7 +11,7 @@ package objectsetphases
 //@ func package-operator.run/internal/controllers/objectsetphases.(*GenericClusterObjectSetPhase).GetPhase
 //@   like package-operator.run/internal/controllers/objectsetphases.genericObjectSetPhase.GetPhase
 
-//@ props C11,C15
+//@ props C06,C11,C15
 // Rollout gating as for an in-process phase: every pass whose ReconcilePhase went through recomputes
 // status.controllerOf from the actual objects before it returns, whatever the probes said (the parent ObjectSet copies
 // that list and decides InTransition / archival of the revision from it).
@@ -19,7 +19,7 @@ package objectsetphases
 //@   requires true
 //@   after ReconcilePhase#1 ghost phaseWentThrough() := result2 == nil
 //@   at SetStatusControllerOf ghost ctrlOfReported() := true
-//@   ensures [C15] err == nil && phaseWentThrough() && !old(ctrlOfReported()) ==> ctrlOfReported()
+//@   ensures [C06,C15] err == nil && phaseWentThrough() && !old(ctrlOfReported()) ==> ctrlOfReported()
 
 //@ props C15
 // a delegated phase is reconciled (objects written) only after its cached finalizer was persisted in this pass, so
